@@ -104,6 +104,9 @@ def build_callable(program: dict, pool: Pool, keep: list) -> Any:
                 r = lib.fn_sin2(inp)
             elif t == "fn_scale":
                 r = lib.fn_scale(inp, **kw)
+            elif t == "fn_gate":
+                names = ["double", "negate"] if s.get("order", "dn") == "dn" else ["negate", "double"]
+                r = lib.fn_gate(inp, **{n: params.get(n, False) for n in names})
             elif "temp" in s:
                 obj = _make_instance(s["temp"])
                 if s.get("keep"):
@@ -132,7 +135,7 @@ def _norm_spec(spec: dict) -> str:
 def site_value_key(s: dict, pool: Pool) -> tuple:
     """What a call site computes, by value (used for the sharing oracle);
     constructor / keyword defaults are filled in so that equal objects compare equal."""
-    if s["target"] in ("fn_sin2", "fn_scale"):
+    if s["target"] in ("fn_sin2", "fn_scale", "fn_gate"):
         obj: Any = s["target"]
     elif "temp" in s:
         obj = _norm_spec(s["temp"])
@@ -308,10 +311,18 @@ def run(plan: dict) -> dict:
             stats["reference_still_has_functions"] += 1
             ref = None
         # ---- numeric differential ----
-        params = program.get("input_params") or {}
+        params0 = program.get("input_params") or {}
         rtol, atol = (1e-6, 1e-8) if program.get("x64") else (2e-4, 2e-5)
         verdict: dict = {}
-        for j, xin in enumerate(_inputs(program, plan.get("seed", 0))):
+        # runtime parameters are model inputs: evaluate other values than the ones given at conversion
+        param_sets = [params0]
+        if "double" in params0:
+            param_sets = [{**params0, "double": a, "negate": b} for a in (False, True) for b in (False, True)]
+            stats["probe_runtime_flag_programs"] += 1
+        cases = [(xin, ps_) for xin in _inputs(program, plan.get("seed", 0)) for ps_ in param_sets]
+        if len(param_sets) > 1:
+            cases = cases[: 2 * len(param_sets)]
+        for j, (xin, params) in enumerate(cases):
             try:
                 got = oracle.ort_run(model, [xin], params)
             except Exception as e:
@@ -322,7 +333,10 @@ def run(plan: dict) -> dict:
             except Exception as e:
                 stats["jax_eager_failed"] += 1
                 jx = None
-            if ref is not None:
+            literal_params = params == params0
+            if ref is not None and literal_params:
+                # (the undecorated export bakes input_params it never hands to a function, so
+                # it is comparable only under the values given at conversion time)
                 try:
                     rf = oracle.ort_run(ref, [xin], params)
                     okr, msgr = oracle.compare(rf, got, rtol=rtol, atol=atol)
@@ -338,7 +352,7 @@ def run(plan: dict) -> dict:
                 stats["compared_with_jax"] += 1
                 verdict["jax"] = okj
                 if not okj:
-                    if verdict.get("ref") is True:
+                    if verdict.get("ref") is True and literal_params:
                         # decorated == undecorated, both differ from JAX: not a function-boundary matter (C01)
                         stats["probe_both_exports_differ_from_jax"] += 1
                     else:
@@ -478,8 +492,11 @@ def gen_history(seed: int, run: int, n_ops: int) -> list[dict]:
             for _ in range(n_sites):
                 v = r.random()
                 if pure_fn_only or v < 0.18:
-                    if r.random() < 0.5:
+                    w_ = r.random()
+                    if w_ < 0.4:
                         s: dict = {"target": "fn_sin2"}
+                    elif w_ < 0.6:
+                        s = {"target": "fn_gate", "order": r.choice(["dn", "nd"])}
                     else:
                         s = {"target": "fn_scale", "kw": {"factor": r.choice([2.0, 3.0, 0.5])} if r.random() < 0.7 else {}}
                 elif v < 0.30:
@@ -505,6 +522,9 @@ def gen_history(seed: int, run: int, n_ops: int) -> list[dict]:
                 program["x64"] = True
             if any(q.get("use_param") for q in sites):
                 program["input_params"] = {"deterministic": True}
+            if any(q["target"] == "fn_gate" for q in sites):
+                program.setdefault("input_params", {}).update({"double": r.random() < 0.5, "negate": r.random() < 0.5})
+                program["x64"] = False
             op: dict = {"op": "convert", "program": program}
             if r.random() < 0.12:
                 if r.random() < 0.5:
